@@ -781,8 +781,19 @@ pub fn child_panic(w: usize, n: usize, fail: usize, delay_ms: u64, prior: u64) -
         }
         x
     });
-    let pipe = src.pipe(pipeline, w as u8);
+    let mut pipe = src.pipe(pipeline, w as u8);
     let mut got = 0;
+    if prior == 3 {
+        // a later, smaller pipe while this one is alive: the items in flight must stay below the failing one
+        // (look-ahead is at most channel + workers), i.e. fail > 2 w + 2 is expected from the caller
+        if pipe.next().is_some() {
+            got += 1;
+        }
+        let c1 = Ctl::new(Mode::Free, 1, 3, 0.0);
+        let src1 = Src { next: 0, n: 3, ctl: c1.clone() };
+        let got1 = src1.pipe(make_pipeline(&c1, None, false), 1).count();
+        println!("later one-thread stream ended after {got1} items");
+    }
     for _ in pipe {
         got += 1;
     }
